@@ -84,6 +84,12 @@ type redisWorld struct {
 	netCounts     map[string]int
 	inconclusive  bool
 
+	migrations int
+	migActive  int
+	migSeq     int
+	crashSteps []int64
+	crashTimes []time.Time
+
 	probeRound       int
 	probeStart       time.Time
 	probeStartStep   []int64
@@ -251,7 +257,11 @@ func (w *redisWorld) Check() *simrt.Violation {
 			return v
 		}
 	}
+	before := len(w.faultsFired) + w.firedCount()
 	w.fireFaults()
+	if len(w.faultsFired)+w.firedCount() != before {
+		return nil // a fault was injected in this step: quiescence is judged from the next step on
+	}
 	if w.env.Quiet() && (len(w.quietSteps) == 0 || w.quietSteps[len(w.quietSteps)-1] != w.rt.Step) {
 		w.quietSteps = append(w.quietSteps, w.rt.Step)
 	}
@@ -365,6 +375,39 @@ func (w *redisWorld) inject(f *Fault) bool {
 		}
 		w.env.Net.SetDown(n.Addr, simnet.DialOK)
 		return true
+	case "mig-start":
+		// slot f.From migrates from its current owner to master f.Dst, one simulator event per migration step
+		slot := f.From
+		src := int(c.Owner[slot])
+		if src < 0 || src == f.Dst || f.Dst >= len(c.Nodes) || c.Nodes[f.Dst].MasterOf >= 0 || !c.Nodes[f.Dst].Up || !c.Nodes[src].Up {
+			return false
+		}
+		if _, busy := c.Nodes[src].Migrating[slot]; busy {
+			return false
+		}
+		w.migrations++
+		w.migrate(slot, src, f.Dst, 0)
+		return true
+	case "failover", "failover-crash":
+		// f.Node is the replica to promote
+		if n.MasterOf < 0 || !n.Up || !c.Nodes[n.MasterOf].Up {
+			return false
+		}
+		if f.Kind == "failover-crash" {
+			w.crashSteps = append(w.crashSteps, w.rt.Step)
+			w.crashTimes = append(w.crashTimes, time.Now())
+		}
+		c.Failover(f.Node, f.Kind == "failover")
+		return true
+	case "freeze-view":
+		n.FreezeView()
+		return true
+	case "thaw-view":
+		if n.View == nil {
+			return false
+		}
+		n.ThawView()
+		return true
 	case "layout":
 		if f.Dst >= len(c.Nodes) || c.Nodes[f.Dst].MasterOf >= 0 {
 			return false
@@ -419,7 +462,64 @@ func (w *redisWorld) inject(f *Fault) bool {
 	return false
 }
 
+func (w *redisWorld) firedCount() int {
+	n := 0
+	for _, f := range w.fired {
+		if f {
+			n++
+		}
+	}
+	return n
+}
+
+// migrate runs one migration as a chain of simulator events: IMPORTING on the target, MIGRATING on the
+// source, one MIGRATE per key (so the slot is half-migrated for a while), then SETSLOT NODE.
+func (w *redisWorld) migrate(slot, src, dst, phase int) {
+	c := w.env.Cluster
+	w.migSeq++
+	w.migActive++
+	label := fmt.Sprintf("mig:%05d#%04d", slot, w.migSeq)
+	w.rt.AddEvent(label, func() {
+		w.migActive--
+		w.lastFault = time.Now()
+		// a fail-over may have replaced an endpoint of the migration meanwhile
+		if c.Nodes[src].MasterOf >= 0 {
+			src = c.Nodes[src].MasterOf
+		}
+		if c.Nodes[dst].MasterOf >= 0 {
+			dst = c.Nodes[dst].MasterOf
+		}
+		switch phase {
+		case 0:
+			c.SetImporting(slot, dst, src)
+			w.rt.Logf("MIG slot %d importing@%d", slot, dst)
+			w.migrate(slot, src, dst, 1)
+		case 1:
+			c.SetMigrating(slot, src, dst)
+			w.rt.Logf("MIG slot %d migrating@%d", slot, src)
+			w.migrate(slot, src, dst, 2)
+		case 2:
+			if c.MoveKey(slot, src, dst) {
+				w.rt.Logf("MIG slot %d moved one key %d->%d", slot, src, dst)
+				w.faultsFired["migration-move-key"]++
+				w.migrate(slot, src, dst, 2)
+			} else {
+				w.migrate(slot, src, dst, 3)
+			}
+		case 3:
+			// keys created on the source after the last MIGRATE cannot exist: the source answers ASK for missing keys
+			c.MoveAllKeys(slot, src, dst)
+			c.SetSlotOwner(slot, src, dst)
+			w.rt.Logf("MIG slot %d owner now %d", slot, dst)
+			w.faultsFired["migration-complete"]++
+		}
+	})
+}
+
 func (w *redisWorld) allFaultsFired() bool {
+	if w.migActive > 0 {
+		return false
+	}
 	for _, f := range w.fired {
 		if !f {
 			return false
@@ -484,6 +584,13 @@ func (w *redisWorld) Deadline() time.Time {
 	}
 	if w.probeStart.After(ref) {
 		ref = w.probeStart
+	}
+	// a client that is still working through its script keeps the horizon open: the obligation is
+	// "answered within H", counted from when the request was issued
+	for _, c := range w.env.Clients {
+		if c.LastSendAt.After(ref) {
+			ref = c.LastSendAt
+		}
 	}
 	// pending faults keep the deadline open for a while; a trigger that has not occurred by then never will
 	if !w.allFaultsFired() {
